@@ -42,12 +42,14 @@ static int c12_read_stream(const char *dir, int tid)
 
 	if (open_data_file(&opts, &handle) < 0) {
 		printf("END open-failed\n");
+		fflush(stdout);
 		return 3;
 	}
 	fstack_setup_task(NULL, &handle);
 	task = get_task_handle(&handle, tid);
 	if (task == NULL) {
 		printf("END no-task\n");
+		fflush(stdout);
 		return 4;
 	}
 	while (read_task_ustack(&handle, task) == 0) {
